@@ -208,3 +208,5 @@ func DiffFilesets(want, got Fileset, withDirMtime bool) string {
 }
 
 func rmrf(p string) { os.RemoveAll(p) }
+
+func syscallUnmount(p string) error { return syscall.Unmount(p, 0) }
